@@ -491,3 +491,7 @@ Proof.
   - intros extra d s rs H. cbn [set_urrs s_urrs]. apply emit_bounded. exact H.
   - intros pdrid p s H. destruct (push_fifo_cap pdrid p s) as [_ [_ [_ [_ [_ [_ [_ [_ [_ E]]]]]]]]]. rewrite E. exact H.
 Qed.
+
+Theorem reachable_queue_bound w lid s pdr q :
+  reachable w -> live w lid s -> alookup pdr (s_q s) = Some q -> N.of_nat (length q) <= BUFFQ_LEN.
+Proof. intros Hr HL. exact (reachable_QOK w Hr lid s HL pdr q). Qed.
